@@ -664,13 +664,24 @@ def check(pid, tier="quick", seed=None, replay=None):
     return 1 if violations else 0
 
 
+def claimed_props():
+    try:
+        man = json.load(open(os.path.join(ROOT, "MANIFEST.json")))
+        return [c["property_id"] for c in man.get("checks", [])]
+    except Exception:
+        return all_props()
+
+
 def setup():
-    """MANIFEST.setup_cmd: build everything from files on disk (offline)."""
+    """MANIFEST.setup_cmd: build everything the claimed checks need from files on disk (offline).
+       Unclaimed (in-progress) properties are built best-effort and never fail the setup."""
+    claimed = claimed_props()
     with Lock("coq"):
         gen_coqproject()
-        p = subprocess.run(["timeout", "3000", "make", "-k", "-j%d" % NCPU], cwd=COQ)
+        targets = ["theories/Properties_%s.vo" % p for p in claimed]
+        p = subprocess.run(["timeout", "3000", "make", "-k", "-j%d" % NCPU] + targets, cwd=COQ)
     rc = p.returncode
-    for pid in all_props():
+    for pid in claimed:
         prop = load_prop(pid)
         okm, _, e1 = ml_build(pid, prop)
         okh, _, e2 = harness_build(pid, prop, "plain")
